@@ -188,11 +188,15 @@ def lcInit (c : Cfg) (file : File) (din : Option Desc) (shuf : List Nat) (now : 
 def lcAutoJoin (c : Cfg) (l : Local) (file : File) (din : Option Desc) (target : State) (now : Int) (gen : Gen) (fault : Fault) : Res :=
   if fault = .failBefore then { l := l, file := file, out := .noCas, ret := .err } else
   let d := din.getD []
+  -- missing in the ring (the ring was lost): it is registered again below, with a fresh registration time
+  let l0 : Local := match d.get? c.id with
+    | none => { l with regTs := now }
+    | some _ => l
   let my := tokensOf d c.id
   let taken := allTokens d
   let n : Int := (c.numTokens : Int) - my.length
   let toks := sortNat (my ++ gen n taken)
-  let l1 : Local := { l with state := target, tokens := toks }
+  let l1 : Local := { l0 with state := target, tokens := toks }
   { l := l1, file := storeFile c file toks, out := .write (put d (lcInst c l1 toks now)), ret := retOf fault,
     genReq := some (n, taken) }
 
@@ -203,16 +207,23 @@ def lcJoinTimer (c : Cfg) (l : Local) (file : File) (din : Option Desc) (now : I
 def lcVerify (c : Cfg) (l : Local) (file : File) (din : Option Desc) (now : Int) (gen : Gen) (fault : Fault) : Res :=
   if fault = .failBefore then { l := l, file := file, out := .noCas, ret := .no } else
   let d := din.getD []
-  let ringT := tokensOf d c.id
-  let taken := allTokens d
-  let same : Bool := sortNat ringT = sortNat l.tokens      -- compareTokens (sorts both in place)
-  let n : Int := (c.numTokens : Int) - ringT.length
-  let rt := sortNat (ringT ++ gen n taken)
-  { l := { l with tokens := if same then sortNat l.tokens else rt },
-    file := if same then file else storeFile c file rt,
-    out := if same then .declined else .write (put d (lcInst c l rt now)),
-    ret := if same ∧ fault ≠ .failCommit then .yes else .no,
-    genReq := if same then none else some (n, taken) }
+  match d.get? c.id with
+  | none =>
+    -- missing in the ring (the ring was lost): re-register the remembered tokens and state with a fresh registration
+    -- time, exactly as `updateConsul` does; nothing is generated, the tokens are verified again at the next observation
+    let l1 : Local := { l with regTs := now }
+    { l := l1, file := file, out := .write (put d (lcInst c l1 l.tokens now)), ret := .no }
+  | some _ =>
+    let ringT := tokensOf d c.id
+    let taken := allTokens d
+    let same : Bool := sortNat ringT = sortNat l.tokens      -- compareTokens (sorts both in place)
+    let n : Int := (c.numTokens : Int) - ringT.length
+    let rt := sortNat (ringT ++ gen n taken)
+    { l := { l with tokens := if same then sortNat l.tokens else rt },
+      file := if same then file else storeFile c file rt,
+      out := if same then .declined else .write (put d (lcInst c l rt now)),
+      ret := if same ∧ fault ≠ .failCommit then .yes else .no,
+      genReq := if same then none else some (n, taken) }
 
 /-- `updateConsul` (heartbeat; also the tail of `changeState` / `ChangeReadOnlyState`) -/
 def lcUpdate (c : Cfg) (l : Local) (file : File) (din : Option Desc) (now : Int) (fault : Fault) : Res :=
@@ -235,22 +246,34 @@ def lcChangeRO (c : Cfg) (l : Local) (file : File) (din : Option Desc) (b : Bool
   if l.ro = b then { l := l, file := file, out := .noCas, ret := .ok }
   else lcUpdate c { l with ro := b, roTs := now } file din now fault
 
-/-- `ClaimTokensFor`: `Desc.ClaimTokens(from, self)`, heartbeat, sort. When the CAS fails (store rejects the call,
-the callback returns an error, the commit is rejected) nothing was claimed and the remembered tokens are kept;
-otherwise `setTokens(claimed)`. -/
+/-- `Desc.ClaimTokens(from, self)` + heartbeat + sort, on a descriptor: `from`'s tokens move to the own entry -/
+def claimOn (c : Cfg) (d0 : Desc) (frm : String) (now : Int) : Desc :=
+  let toks := sortNat (tokensOf d0 frm)
+  let d1 := match d0.get? frm with
+    | some f => put d0 { f with tokens := [] }
+    | none => d0
+  let ing : Inst := (d1.get? c.id).getD { id := c.id }
+  put d1 { ing with tokens := toks, ts := now }
+
+/-- `ClaimTokensFor`: an instance missing in the ring is first added back (remembered state and tokens, fresh registration
+time), then `Desc.ClaimTokens(from, self)`, heartbeat, sort. When the CAS fails (store rejects the call, the callback
+returns an error, the commit is rejected) nothing was claimed and the remembered tokens are kept; otherwise
+`setTokens(claimed)`. -/
 def lcClaim (c : Cfg) (l : Local) (file : File) (din : Option Desc) (frm : String) (now : Int) (fault : Fault) : Res :=
   if fault = .failBefore then { l := l, file := file, out := .noCas, ret := .ok } else
   match din with
   | none => { l := l, file := file, out := .cbErr, ret := .ok }
   | some d =>
-    let toks := sortNat (tokensOf d frm)
-    let d1 := match d.get? frm with
-      | some f => put d { f with tokens := [] }
-      | none => d
-    let ing : Inst := (d1.get? c.id).getD { id := c.id }
-    { l := if fault = .failCommit then l else { l with tokens := toks },
+    let l0 : Local := match d.get? c.id with
+      | none => { l with regTs := now }
+      | some _ => l
+    let d0 := match d.get? c.id with
+      | none => put d (lcInst c l0 l.tokens now)
+      | some _ => d
+    let toks := sortNat (tokensOf d0 frm)
+    { l := if fault = .failCommit then l0 else { l0 with tokens := toks },
       file := if fault = .failCommit then file else storeFile c file toks,
-      out := .write (put d1 { ing with tokens := toks, ts := now }), ret := .ok }
+      out := .write (claimOn c d0 frm now), ret := .ok }
 
 def lcUnregister (c : Cfg) (l : Local) (file : File) (din : Option Desc) (fault : Fault) : Res :=
   if fault = .failBefore then { l := l, file := file, out := .noCas, ret := .err } else
